@@ -44,6 +44,9 @@ type Parser struct {
 	// by ST. This will have the effect of ignore an ST so we don't see
 	// ambiguous "Alt+\" when parsing input
 	ignoreST bool
+	// skipST is on for the character right after the ESC that ended such a
+	// state: if it is "\", the two are the ST and nothing is dispatched
+	skipST bool
 
 	// escTimeout is a timeout for interpretting an Esc keypress vs an
 	// escape sequence
@@ -507,6 +510,9 @@ func anywhere(r rune, p *Parser) stateFn {
 			p.exit = nil
 		}
 		p.clear()
+		// only the ESC that ends a string can be the start of its ST
+		p.skipST = p.ignoreST
+		p.ignoreST = false
 		p.escPending = true
 		p.escGen += 1
 		gen := p.escGen
@@ -735,6 +741,8 @@ func dcsIntermediate(r rune, p *Parser) stateFn {
 	default:
 		// Return to ground on unexpected characters
 		p.emit(fmt.Errorf("unexpected characted: %c", r))
+		// the string is abandoned, no ST will follow
+		p.ignoreST = false
 		return ground
 	}
 }
@@ -766,6 +774,8 @@ func dcsParam(r rune, p *Parser) stateFn {
 	default:
 		// Return to ground on unexpected characters
 		p.emit(fmt.Errorf("unexpected characted: %c", r))
+		// the string is abandoned, no ST will follow
+		p.ignoreST = false
 		return ground
 	}
 }
@@ -857,10 +867,10 @@ func dcsPassthrough(r rune, p *Parser) stateFn {
 // that enabled me to derive this state diagram have been as subtle as
 // that.
 func escape(r rune, p *Parser) stateFn {
-	// ignoreST only concerns the character right after the ESC that ended
+	// skipST only concerns the character right after the ESC that ended
 	// a string
-	ignoreST := p.ignoreST
-	p.ignoreST = false
+	ignoreST := p.skipST
+	p.skipST = false
 	switch {
 	case in(r, 0x00, 0x17), r == 0x19, in(r, 0x1C, 0x1F):
 		p.execute(r)
